@@ -2073,6 +2073,12 @@ func streamCase(c *core.Ctx, r *rand.Rand) {
 	rd2 := stream.NewReader(raw)
 	c.Op("sr new 1 "+hx(raw), "ok")
 	for k := 0; k < 8+r.Intn(12); k++ {
+		// impl-side statement of stream_reader_free_form_history: whatever errors the reads run into, Position() stays
+		// inside the buffer, a forward read never moves back, and a read that hands out bytes hands out exactly
+		// raw[position before : position after] (nothing skipped, repeated or reordered)
+		posBefore := rd2.Position()
+		forward, handsOut := true, false
+		var handed []byte
 		switch r.Intn(14) {
 		case 0:
 			guard(c, "sr byte 1", func() string { v := rd2.ReadByte(); return fmt.Sprintf("%d %s", v, srState(rd2)) })
@@ -2093,14 +2099,17 @@ func streamCase(c *core.Ctx, r *rand.Rand) {
 		case 8:
 			n := r.Intn(8) - 1
 			c.Branch("stream-read-bytes")
-			guard(c, fmt.Sprintf("sr bytes 1 %d", n), func() string { v := rd2.ReadBytes(n); return fmt.Sprintf("%s %s", hx(v), srState(rd2)) })
+			handsOut = true
+			guard(c, fmt.Sprintf("sr bytes 1 %d", n), func() string { v := rd2.ReadBytes(n); handed = v; return fmt.Sprintf("%s %s", hx(v), srState(rd2)) })
 		case 9:
 			n := r.Intn(8) - 1
 			c.Branch("stream-read-slice")
-			guard(c, fmt.Sprintf("sr slice 1 %d", n), func() string { v := rd2.ReadSlice(n); return fmt.Sprintf("%s %s", hx(v), srState(rd2)) })
+			handsOut = true
+			guard(c, fmt.Sprintf("sr slice 1 %d", n), func() string { v := rd2.ReadSlice(n); handed = v; return fmt.Sprintf("%s %s", hx(v), srState(rd2)) })
 		case 10:
 			n := r.Intn(len(raw)+4) - 1
 			c.Branch("stream-read-at")
+			forward = false
 			guard(c, fmt.Sprintf("sr at 1 %d", n), func() string { rd2.ReadAt(n); return fmt.Sprintf("- %s", srState(rd2)) })
 		case 11:
 			ch := r.Intn(256)
@@ -2108,12 +2117,26 @@ func streamCase(c *core.Ctx, r *rand.Rand) {
 				ch = int(raw[r.Intn(len(raw))])
 			}
 			c.Branch("stream-read-until")
-			guard(c, fmt.Sprintf("sr until 1 %d", ch), func() string { v := rd2.ReadUntil(byte(ch)); return fmt.Sprintf("%s %s", hx(v), srState(rd2)) })
+			handsOut = true
+			guard(c, fmt.Sprintf("sr until 1 %d", ch), func() string { v := rd2.ReadUntil(byte(ch)); handed = v; return fmt.Sprintf("%s %s", hx(v), srState(rd2)) })
 		case 12:
 			guard(c, "sr unread 1", func() string { v := rd2.UnreadSlice(); return fmt.Sprintf("%s %s", hx(v), srState(rd2)) })
 		default:
 			c.Branch("stream-reader-reset")
+			forward = false
 			guard(c, "sr reset 1 "+hx(raw), func() string { rd2.Reset(raw); return fmt.Sprintf("- %s", srState(rd2)) })
+		}
+		posAfter := rd2.Position()
+		switch {
+		case posAfter < 0 || posAfter > len(raw):
+			c.Fail("stream-reader-skips-or-repeats", fmt.Sprintf("free-form read #%d: Position()=%d outside the buffer of %d bytes", k+1, posAfter, len(raw)))
+		case forward && posAfter < posBefore:
+			c.Fail("stream-reader-skips-or-repeats", fmt.Sprintf("free-form read #%d: a forward read moved the position back from %d to %d", k+1, posBefore, posAfter))
+		case forward && handsOut && !bytes.Equal(handed, raw[posBefore:posAfter]):
+			c.Fail("stream-reader-skips-or-repeats", fmt.Sprintf("free-form read #%d (error state %s): handed out %x but consumed raw[%d:%d]=%x", k+1, sErr(rd2.Error()), handed, posBefore, posAfter, raw[posBefore:posAfter]))
+		}
+		if rd2.Error() != nil {
+			c.Branch("stream-free-form-read-with-error-pending")
 		}
 	}
 	// Round 9: the reader, in whatever state the free-form reads left it, is Reset on an empty / short / other
